@@ -194,7 +194,11 @@ PowfFails(x, y, hint, r) ==
        ELSE IF vx.mag = <<>> THEN (IF ~vy.neg THEN Chk(ExactValue(r, DZero), "C14", "zero_powf_positive") ELSE {})
        ELSE IF vy.mag = <<>> THEN Chk(ExactValue(r, DOne), "C14", "powf_zero_exponent")
        ELSE IF vx.neg /\ ~DIsInt(vy) THEN Chk(~Valid(r.x), "C14", "negative_base_fractional_exponent_valid")
-       ELSE IF ~(AbsGeqPow2(vx, -30) /\ AbsLeqPow2(vx, 30) /\ DCmpAbs(vy, DInt(10)) <= 0) THEN {}
+       \* outside the accuracy range only the sign rule is claimed: +-|x|^y with the sign given by the parity of
+       \* the integer y (decided on results that carry a sign: non-zero finite or infinite high word)
+       ELSE IF ~(AbsGeqPow2(vx, -30) /\ AbsLeqPow2(vx, 30) /\ DCmpAbs(vy, DInt(10)) <= 0)
+            THEN (IF vx.neg /\ (r.x.hi.k = "i" \/ (r.x.hi.k = "f" /\ r.x.hi.mag # <<>>))
+                  THEN Chk(r.x.hi.neg = DIntIsOdd(vy), "C14", "powf_sign") ELSE {})
        ELSE IF ~Valid(hint) THEN Undecided("C14", "powf_hint")
        ELSE LET L == LnFrom(BExact(DAbs(vx)), Value(hint)) IN
             IF ~L.ok THEN Undecided("C14", "powf_hint")
